@@ -234,6 +234,8 @@ m("compare-context-finally-revert", "_compare_context.py", "    try:\n        yi
 m("format-command-output-escape-revert", "_format.py", "                + escape(result.stdout.decode(\"utf-8\"))\n                + escape(result.stderr.decode(\"utf-8\"))\n", "                + result.stdout.decode(\"utf-8\")\n                + result.stderr.decode(\"utf-8\")\n", ["C15"], "revert: formatter error output interpreted as rich markup")
 m("empty-format-command-revert", "_config.py", 'tool_config.get("format-command", None) or None', 'tool_config.get("format-command", None)', ["C20"], "revert: format-command=\"\" is executed as a command")
 m("repr-is-expression-revert", "_code_repr.py", "    if not is_expression(result):\n        return real_repr(HasRepr(type(obj), result))\n", "    try:\n        ast.parse(result)\n    except SyntaxError:\n        return real_repr(HasRepr(type(obj), result))\n", ["C01", "C18"], "revert: reprs that parse as code + comment / statements are written verbatim")
+m("dataclass-init-false-revert", "_adapter/generic_call_adapter.py", "            if field.repr and field.init:\n                field_value = getattr(value, field.name)\n                is_default = False\n\n                if field.default != MISSING", "            if field.repr:\n                field_value = getattr(value, field.name)\n                is_default = False\n\n                if field.default != MISSING", ["C01", "C02"], "revert: dataclass init=False fields written as constructor arguments")
+m("attrs-alias-revert", "_adapter/generic_call_adapter.py", "                    kwargs[cls.argument_name(field)] = Argument(", "                    kwargs[field.name] = Argument(", ["C01", "C02"], "revert: private attrs attributes written as _name=")
 m("run-inline-external-import-only", "testing/_example.py", '                    if used_hasrepr(tree):\n                        required_imports.append("HasRepr")', '                    if used_hasrepr(tree) and used_externals(tree):\n                        required_imports.append("HasRepr")', ["C19"], "HasRepr import only added together with external")
 
 
